@@ -17,9 +17,10 @@ inductive Integrity
   | reason (text : String)
   deriving DecidableEq, Repr
 
-/-- `_validate_integrity` (connection.py l.476-521).  `msg[8]` raises TagNotFoundError when absent and
-`int(msg[34])` raises ValueError on a non-numeric value: both escape `_process_message` (the call is
-outside its `try`).  `validate_comp_ids(msg[49], msg[56])` compares our *target* with the frame's
+/-- `_validate_integrity` (connection.py l.476-524).  `msg[8]` raises TagNotFoundError when absent: that
+escapes `_process_message` (the call is outside its `try`).  A non-numeric MsgSeqNum is an integrity
+defect with its own reason (fix 10275ed).  Too low = below `next_num_in`, except for a SequenceReset
+and except for a PossDupFlag=Y frame while RESENDREQ_AWAITING (fix 1c8bf2b).  `validate_comp_ids(msg[49], msg[56])` compares our *target* with the frame's
 SenderCompID(49) and our *sender* with its TargetCompID(56) (session.py l.60-73). -/
 def validateIntegrity (m : Msg) : M Integrity := do
   let c ← M.get
@@ -35,10 +36,13 @@ def validateIntegrity (m : Msg) : M Integrity := do
     else if !m.has tMsgSeqNum then pure (.reason "MsgSeqNum(34) tag is missing")
     else do
       let v ← M.liftE (m.get tMsgSeqNum)
-      let n ← M.int v
-      if n < c.sess.nextIn && !(m.mtype == mSequenceReset) && !(c.state == st_RESENDREQ_AWAITING) then
-        pure (.reason ("MsgSeqNum is too low, expected " ++ pyStr c.sess.nextIn ++ ", got " ++ pyStr n))
-      else pure .good
+      match pyInt v with
+      | none => pure (.reason "MsgSeqNum(34) is not a number")
+      | some n =>
+        if n < c.sess.nextIn && !(m.mtype == mSequenceReset)
+            && !(c.state == st_RESENDREQ_AWAITING && (m.get? tPossDupFlag).getD "N" == "Y") then
+          pure (.reason ("MsgSeqNum is too low, expected " ++ pyStr c.sess.nextIn ++ ", got " ++ pyStr n))
+        else pure .good
 
 /-- `Journaler.set_seq_num(session, next_num_out, next_num_in)` (journaler.py l.117-155): asserts `> 0`
 (the outbound one first, and the session attribute is already assigned when the inbound assertion
@@ -57,26 +61,35 @@ def setSeqNum (nextOut nextIn : Option Int) : M Unit := do
   | none => pure ()
   M.modify fun c => { c with journal := c.journal.setSeq c.sess.nextOut c.sess.nextIn }
 
-/-- `_process_logon` (connection.py l.523-546), asserts included.  The acceptor's reply copies
-EncryptMethod(98) and HeartBtInt(108) from the peer's Logon (TagNotFoundError when absent). -/
+/-- `_process_logon` (connection.py l.526-556), asserts included.  Acceptor: a Logon without
+EncryptMethod(98) or HeartBtInt(108) cannot be answered – Logout with that reason, disconnect, `return`
+(fix 29469a0; no state change to ACTIVE, no `on_logon`); otherwise the reply copies 98 and 108. -/
 def processLogon (env : Env) (m : Msg) : M Unit := do
   M.assert (m.mtype == mLogon)
   let c ← M.get
   M.assert (c.role == roleAcceptor || c.role == roleInitiator)
   let v ← M.liftE (m.get tMsgSeqNum)
   let n ← M.int v
-  if c.role == roleAcceptor then do
-    M.assert (c.state == st_LOGON_INITIAL_RECV)
-    if n ≥ c.sess.nextIn then do
-      let e ← M.liftE (m.get tEncryptMethod)
-      let h ← M.liftE (m.get tHeartBtInt)
-      sendMsg env (Msg.mk' mLogon [(tEncryptMethod, e), (tHeartBtInt, h)])
-    else pure ()
-  else pure ()
-  let c2 ← M.get
-  if n == c2.sess.nextIn then stateSet st_ACTIVE else stateSet st_RECV_SEQNUM_TOO_HIGH
-  let c3 ← M.get
-  M.emit (.onLogon (c3.state == st_ACTIVE))
+  let stop ←
+    if c.role == roleAcceptor then do
+      M.assert (c.state == st_LOGON_INITIAL_RECV)
+      if !m.has tEncryptMethod || !m.has tHeartBtInt then do
+        disconnect env st_DISCONNECTED_BROKEN_CONN (some "Logon() without EncryptMethod(98) / HeartBtInt(108)")
+        pure true
+      else do
+        if n ≥ c.sess.nextIn then do
+          let e ← M.liftE (m.get tEncryptMethod)
+          let h ← M.liftE (m.get tHeartBtInt)
+          sendMsg env (Msg.mk' mLogon [(tEncryptMethod, e), (tHeartBtInt, h)])
+        else pure ()
+        pure false
+    else pure false
+  if stop then pure ()
+  else do
+    let c2 ← M.get
+    if n == c2.sess.nextIn then stateSet st_ACTIVE else stateSet st_RECV_SEQNUM_TOO_HIGH
+    let c3 ← M.get
+    M.emit (.onLogon (c3.state == st_ACTIVE))
 
 /-- `_check_seqnum_gaps` (l.548-569): `True` = number is not above expectation.  A gap outside
 RESENDREQ_AWAITING records the watermark, sends ResendRequest(BeginSeqNo = expected, EndSeqNo = 0) and
